@@ -25,6 +25,21 @@ def set_parents(tree):
     return tree
 
 
+def clone(node):
+    """deep copy of an AST node that does not follow the `_parent` back links"""
+    if isinstance(node, list):
+        return [clone(x) for x in node]
+    if not isinstance(node, ast.AST):
+        return node
+    new = type(node)()
+    for f, v in ast.iter_fields(node):
+        setattr(new, f, clone(v))
+    for a in ('lineno', 'col_offset', 'end_lineno', 'end_col_offset'):
+        if hasattr(node, a):
+            setattr(new, a, getattr(node, a))
+    return new
+
+
 def parent(node):
     return getattr(node, '_parent', None)
 
